@@ -1,6 +1,7 @@
 //! roocverif — generates cases, runs the real rooc code on them and writes, per case, the request for
 //! the Lean model, the implementation's canonical answer and the exact-oracle request.
 mod case;
+mod child;
 mod explore;
 mod gen_exp;
 mod props;
@@ -15,6 +16,10 @@ fn arg(args: &[String], name: &str) -> Option<String> {
 
 fn main() {
     let args: Vec<String> = std::env::args().collect();
+    if args.len() >= 2 && args[1] == "solve-worker" {
+        child::worker_main();
+        return;
+    }
     if args.len() >= 3 && args[1] == "explore" {
         explore::explore(&std::fs::read_to_string(&args[2]).expect("read"));
         return;
